@@ -6,8 +6,8 @@
                       unsubscribe_from_all, pause_all_subscriptions, resume_all_subscriptions
      Gen/MgrSub.v     mgr_add_subscription, mgr_remove_subscription, ..., mgr_recv
    Hand-written here: the operation type, the composition client -> wire -> manager, the two context
-   managers (client.py:461-502) with CPython's iteration-under-mutation semantics (Lib/PyList.v), the
-   observables `reported` and `delivered`.  Executable, proof-free. *)
+   managers (client.py subscription_context / paused_subscription_context) with CPython's list.remove
+   semantics (Lib/PyList.v), the observables `reported` and `delivered`.  Executable, proof-free. *)
 From Coq Require Import ZArith List Bool String.
 From Cli Require Import Model.SubBase Lib.PyList Gen.ClientSub Gen.MgrSub.
 Import ListNotations.
@@ -51,56 +51,51 @@ Definition reported (c : cstate) (t : Z) : bool := sub_all c || mem t (subscribe
    chain(subscriptions[msg_type], subscriptions[ALL_MESSAGE_TYPES]) *)
 Definition delivered (m : mstate) (t : Z) : bool := mem t (memb m) || mem ALL_MESSAGE_TYPES (memb m).
 
-(* ---- context managers ---- *)
+(* ---- context managers (client.py, as repaired by 651ddd8 and aa63f93) ---- *)
 Inductive ctx_result :=
-| CtxOk (s : sys)                  (* body ran (empty), exit ran *)
+| CtxOk (s : sys)                       (* body ran (empty), exit ran *)
 | CtxEnterRaised (e : cexc) (s : sys)   (* __enter__ raised: body and exit never run *)
-| CtxExitRaised (e : cexc) (s : sys)
-| CtxFuel.                         (* model artefact, excluded by PyListProofs.iter_remove_total *)
+| CtxExitRaised (e : cexc) (s : sys).
 
-(* subscription_context(msg_list): drop the already subscribed entries (remove while iterating),
-   subscribe(rest) ; yield ; unsubscribe(rest).   Returns the state inside the body as well. *)
-Definition sub_ctx_list (c : cstate) (l : list Z) : option (list Z) :=
-  iter_remove (fun mt => mem mt (to_set (subscribed c))) l.
-Definition pause_ctx_list (c : cstate) (l : list Z) : option (list Z) :=
-  iter_remove (fun mt => negb (mem mt (to_set (subscribed c)))) l.
+(* the entries that survive the filtering loop (remove from msg_list while iterating a copy) *)
+Definition sub_ctx_list (c : cstate) (l : list Z) : list Z :=
+  copy_remove (fun mt => mem mt (to_set (subscribed c))) l.
+Definition pause_ctx_list (c : cstate) (l : list Z) : list Z :=
+  copy_remove (fun mt => negb (mem mt (to_set (subscribed c)))) l.
 
-Definition ctx_cycle (enter exit : op) (s : sys) : ctx_result * option sys :=
+(* run the exit calls in order; the first exception propagates *)
+Fixpoint ctx_exit (s : sys) (ops : list op) : sys * option cexc :=
+  match ops with
+  | [] => (s, None)
+  | o :: r => match sys_step s o with
+              | (s', Some e) => (s', Some e)
+              | (s', None) => ctx_exit s' r
+              end
+  end.
+
+(* enter ; yield (empty body) ; exit calls.  Also returns the state inside the body. *)
+Definition ctx_cycle (enter : op) (exits : list op) (s : sys) : ctx_result * option sys :=
   match sys_step s enter with
   | (s1, Some e) => (CtxEnterRaised e s1, None)
   | (s1, None) =>
-    match sys_step s1 exit with
+    match ctx_exit s1 exits with
     | (s2, Some e) => (CtxExitRaised e s2, Some s1)
     | (s2, None) => (CtxOk s2, Some s1)
     end
   end.
 
+(* subscription_context(msg_list): drop the already subscribed entries; remember which of the rest are
+   paused; subscribe(rest) ; yield ; unsubscribe(rest) ; if was_paused: pause_subscription(was_paused) *)
 Definition subscription_context (s : sys) (l : list Z) : ctx_result * option sys :=
-  match sub_ctx_list (cl s) l with
-  | None => (CtxFuel, None)
-  | Some l' => ctx_cycle (OSub l') (OUnsub l') s
-  end.
+  let l' := sub_ctx_list (cl s) l in
+  let was_paused := filter (fun mt => mem mt (to_set (paused (cl s)))) l' in
+  ctx_cycle (OSub l') (OUnsub l' :: match was_paused with [] => [] | _ => [OPause was_paused] end) s.
 
+(* paused_subscription_context(msg_list): drop the entries that are not subscribed;
+   pause_subscription(rest) ; yield ; resume_subscription(rest) *)
 Definition paused_subscription_context (s : sys) (l : list Z) : ctx_result * option sys :=
-  match pause_ctx_list (cl s) l with
-  | None => (CtxFuel, None)
-  | Some l' => ctx_cycle (OPause l') (OResume l') s
-  end.
-
-(* ---- decidable side conditions used by the partial theorems ---- *)
-(* recorded classes for subscription_context: the filtering loop skipped an already subscribed
-   entry (so that it survives in the list), or an entry of the list is paused on entry *)
-Definition sub_ctx_ok (c : cstate) (l : list Z) : bool :=
-  match sub_ctx_list c l with
-  | None => false
-  | Some l' => forallb (fun t => negb (mem t (subscribed c)) && negb (mem t (paused c))) l'
-  end.
-(* recorded class for paused_subscription_context: a not-subscribed entry survived the loop *)
-Definition pause_ctx_ok (c : cstate) (l : list Z) : bool :=
-  match pause_ctx_list c l with
-  | None => false
-  | Some l' => forallb (fun t => mem t (subscribed c)) l'
-  end.
+  let l' := pause_ctx_list (cl s) l in
+  ctx_cycle (OPause l') [OResume l'] s.
 
 (* client-side well-formedness that every reachable state has *)
 Definition c_wf (c : cstate) : bool :=
